@@ -297,8 +297,9 @@ def judge(spec, scenario, history):
             elif st == "empty" and optional and e.get("tr") == "rest" and fields[f]["name"] not in (m.get("http") or {}).get("body", "x"):
                 # explicit presence of an EMPTY optional string in a query string: carried as "f=" (checked by C04's
                 # reconstruction); the value must still not be replaced by a UUID
-                if wire != "":
-                    return V("explicit_empty_altered", f"caller explicitly set optional {f}=''; attempt {e['n']} carried {wire!r}")
+                if wire != "" or not got.HasField(f):
+                    return V("explicit_empty_altered", f"caller explicitly set optional {f}=''; attempt {e['n']} carried {wire!r} "
+                             f"(present={got.HasField(f)}): an explicitly empty optional string travels as '{f}=' in the query")
                 _bump(probes, "explicit_empty_on_optional_kept")
             elif st == "empty" and optional:
                 if wire != "" or not got.HasField(f):
@@ -380,6 +381,12 @@ def preflight():
                     f.update(kw)
         return mut
 
+    def add_foreign_method(sp):
+        # a method whose request message lives in ANOTHER proto package (google.iam.v1): its `resource` is a REQUIRED string
+        # without the UUID4 format, so naming it in auto_populated_fields must be rejected like any other ineligible field
+        sp["files"][0]["services"][0]["methods"].append({"name": "SetWidgetPolicy", "input": ".google.iam.v1.SetIamPolicyRequest",
+                                                         "output": ".google.iam.v1.Policy"})
+
     def selective(allow):
         def mut(sp):
             sp["service_yaml"]["publishing"]["library_settings"] = [
@@ -428,6 +435,7 @@ def preflight():
                                                           selective([SVC + ".CreateWidget", SVC + ".GetWidget"])), True),
         ("selective_generation_bad_field", spec_with([{"selector": SVC + ".CreateWidget", "auto_populated_fields": ["parent"]}],
                                                      selective([SVC + ".CreateWidget", SVC + ".GetWidget"])), True),
+        ("foreign_request_bad_field", spec_with([{"selector": SVC + ".SetWidgetPolicy", "auto_populated_fields": ["resource"]}], add_foreign_method), True),
         ("duplicate_adjacent", spec_with([A, dict(A)]), True),
         ("duplicate_separated", spec_with([A, B, dict(A)]), True),
         ("duplicate_separated_empty_last", spec_with([A, B, {"selector": SVC + ".CreateWidget"}]), True),
